@@ -1755,14 +1755,26 @@ impl World {
                         desc.push(format!("delete {}", k));
                     }
                     4 => {
-                        let body: Vec<u8> = match g.below(4) {
+                        // blocks whose fields have the wrong JSON type: hash-valid when named by their digest, so they
+                        // reach the block parser, which must reject them without aborting
+                        const BAD_BLOCKS: [&str; 14] = [
+                            r#"{"k":[1]}"#, r#"{"k":[null]}"#, r#"{"k":"x"}"#, r#"{"k":{}}"#, r#"{"i":5}"#, r#"{"p":"x"}"#, r#"{"p":[5]}"#,
+                            r#"{"p":["1-zz"],"k":[1]}"#, r#"{"c":[[1,"a"]]}"#, r#"{"c":[["k",5]]}"#, r#"{"c":[["k"]]}"#, r#"{"c":[["k","1-ab","cd","ef"]]}"#,
+                            r#"{"c":[["k","zz","cd"]]}"#, r#"{"c":5}"#,
+                        ];
+                        let mut force_matching_name = false;
+                        let body: Vec<u8> = match g.below(6) {
                             0 => b"{\"c\":[[\"\\u221a\",\"abc\"]]}".to_vec(),
                             1 => b"not json".to_vec(),
                             2 => b"[{\"injected\":true}]".to_vec(),
+                            3 | 4 => {
+                                force_matching_name = g.chance(3, 4);
+                                g.pick(&BAD_BLOCKS).as_bytes().to_vec()
+                            }
                             _ => items[&k].clone(),
                         };
                         let dg = digest_bytes(&body);
-                        let name = match g.below(11) {
+                        let name = match if force_matching_name { 2 } else { g.below(11) } {
                             0 => format!("{}-{}.delta", 1 + g.below(3), "ab".repeat(32)),
                             // an index beyond u32 / beyond u64 in a block name
                             9 => format!("4294967296-{}.delta", "cd".repeat(32)),
@@ -1854,7 +1866,12 @@ impl World {
                             st.put_raw(k, v.clone());
                         }
                     }
-                    if m2.refresh().is_ok() {
+                    let rr = catch_unwind(AssertUnwindSafe(|| m2.refresh().is_ok()));
+                    if rr.is_err() {
+                        fails.push(("C10", format!("refresh after injection ({}) aborts", desc.join(", "))));
+                        fails.push(("C08", format!("refresh after injection ({}) aborts", desc.join(", "))));
+                    }
+                    if rr.unwrap_or(false) {
                         let mut both = items.clone();
                         for (k, v) in &intact {
                             both.entry(k.clone()).or_insert(v.clone());
